@@ -410,7 +410,7 @@ theorem doAssemble_sim (hinj : NumInj num) (henc : EncLen enc) (fs : Bytes → O
     (hincr : IncRel inc) (env : Env) (path : Bytes) (rest : List Bytes) (henv : env.paths = path :: rest)
     (perr : Option ParseErr) (id : Nat) (Gt₀ : Table) :
     ∀ (els : List Element) (st stf : St) (l : Layout.State) (nxt : Nat) (seen : List Bytes) (A : List (Bytes × Int)),
-      (∀ el ∈ els, okGlob el = true ∧ plainEl el = true ∧ ∀ p' d', incTarget fs path el = some (p', d') → proj p' d') →
+      (∀ el ∈ els, okGlob el = true ∧ ∀ p' d', incTarget fs path el = some (p', d') → proj p' d') →
       declOk fs path seen els = true →
       Multi.Sim (num id) enc t₂ G (pub Gt₀ A) st l → PubOk Gt₀ A →
       (∀ x ∈ seen, ∀ t, st.locals = some t → ∃ v, t.find x = some (some v)) →
@@ -493,7 +493,7 @@ theorem doAssemble_sim (hinj : NumInj num) (henc : EncLen enc) (fs : Bytes → O
           · rfl
         obtain ⟨els', perr', t', pc, l1, l2, Ac, la, id', hparse, hlt, hm, hrt, hal, hlat, hR, e1, hnd1, henvr1, e2, e3, e4, hcur,
             hwf, hframe, hflat, hAn, hAv⟩ :=
-          hincs env st st1 d' p' id nxt l t (hel.2.2 _ _ htgt) sim.good henv' sim.r hl hnd henvr hid hfresh hcall herr1
+          hincs env st st1 d' p' id nxt l t (hel.2 _ _ htgt) sim.good henv' sim.r hl hnd henvr hid hfresh hcall herr1
         have sim1 : Multi.Sim (num id) enc t₂ G (pub Gt₀ A) st1 la :=
           ⟨good1, hR, ⟨_, e1, hnd1, hT _ e1, henvr1⟩,
             ⟨q, by rw [e2]; exact hq, by rw [hlat]; exact hqr⟩, ⟨e4.trans sim.gl.1, e3.trans sim.gl.2⟩⟩
@@ -559,7 +559,7 @@ theorem doAssemble_sim (hinj : NumInj num) (henc : EncLen enc) (fs : Bytes → O
         · -- an ordinary statement
           have hg' : isGlobal el = false := by simpa using hg
           have hokel := okEl_of (okInc_of hel.1 hg') hi'
-          obtain ⟨l1, s1, s2, s3⟩ := Multi.statement_sim (hinj.inj id) henc sim fs inc env path henv el hokel hel.2.1 hs herr1 hT
+          obtain ⟨l1, s1, s2, s3⟩ := Multi.statement_sim (hinj.inj id) henc sim fs inc env path henv el hokel hs herr1 hT
           have sim1 : Multi.Sim (num id) enc t₂ G (pub Gt₀ A) st1 l1 := ⟨good1, s2.r, s2.tbl, s2.tasks, s2.gl⟩
           have henv1 : ∀ j n, j ≠ id → l1.env.get (num j n) = l.env.get (num j n) := fun j n hj =>
             Layout.step_env_raw l l1 _ s1 _ (fun hd => by
@@ -591,7 +591,7 @@ theorem fileBody_sim (hinj : NumInj num) (henc : EncLen enc) (fs : Bytes → Opt
     (hincr : IncRel inc) (env1 : Env) (path : Bytes) (rest : List Bytes) (henv : env1.paths = path :: rest)
     (data : Bytes) (pid id : Nat) (hpid : pid < id) (st2 st4 : St) (res : Res) (l2 : Layout.State)
     (hproj : ∀ els perr, parseFile data = .ok (els, perr) → declOk fs path [] els = true ∧ ∀ el ∈ els, okGlob el = true ∧
-      plainEl el = true ∧ ∀ p' d', incTarget fs path el = some (p', d') → proj p' d')
+      ∀ p' d', incTarget fs path el = some (p', d') → proj p' d')
     (good : Good true st2) (r : R st2.seg l2) (hloc : st2.locals = some []) (hlt : st2.localTasks = some [])
     (hlk : l2.tasks = []) (hfresh : ∀ j n, id ≤ j → l2.env.get (num j n) = none)
     (hgn : Table.NoDef st2.globals) (hgr : EnvRel (num pid) st2.globals l2.env)
@@ -704,12 +704,12 @@ theorem fileBody_sim (hinj : NumInj num) (henc : EncLen enc) (fs : Bytes → Opt
           rw [hE' id n (Nat.le_refl _) (by omega)]
           exact g2.env n
 
-/-- every file of the include tree below (`path`, `data`), to depth `fuel`: no `.import / .export`, operand trees `plain`,
+/-- every file of the include tree below (`path`, `data`), to depth `fuel`: no `.import / .export` (operand trees arbitrary),
 every `.global x` below a definition of `x` in the same file or an `.include` of a file declaring `x` global -/
 def GlobalProject (fs : Bytes → Option Bytes) : Nat → Bytes → Bytes → Prop
   | 0, _, _ => True
   | fuel + 1, path, data => ∀ els perr, parseFile data = .ok (els, perr) → declOk fs path [] els = true ∧ ∀ el ∈ els,
-      okGlob el = true ∧ plainEl el = true ∧ ∀ p' d', incTarget fs path el = some (p', d') → GlobalProject fs fuel p' d'
+      okGlob el = true ∧ ∀ p' d', incTarget fs path el = some (p', d') → GlobalProject fs fuel p' d'
 
 theorem assembleFile_sim (hinj : NumInj num) (henc : EncLen enc) (fs : Bytes → Option Bytes) :
     ∀ fuel, GIncSim num enc fs (assembleFile fs enc fuel) (GlobalProject fs fuel) := by
